@@ -5,7 +5,8 @@
 //   driver --root DIR --helper NAME=PATH [--helper NAME=PATH] --tier quick|thorough [--shard K N] [--deadline EPOCH_SECONDS]
 //   driver --root DIR --helper NAME=PATH ... --tier T --slice GRID DEPTH LENCLASS        (replay of one slice)
 //
-// A "slice" is one (grid, depth, total length) cell; its cases are flavour x invocation (x helper build).
+// A "slice" is one cell: (grid A/B, depth, total length), (grid C, slot of the special name, total length) or
+// (grid D, depth, position of the long name); its cases are flavour-or-name-shape x invocation (x helper build).
 #include "report.hpp"
 
 #include <algorithm>
@@ -91,7 +92,58 @@ namespace
         // grid B: every total length from the smallest creatable one to PATH_MAX-1 at one depth, reduced flavours/invocations
         int sweep_depth = 0;
         std::vector<int> sweep_flavours, sweep_invocations;
+        // grid C: every name of the SHAPES list x the slot it is put in (program name / its directory / higher up / all three)
+        // x total length ("natural" = depth 4 between ordinary short names; a number = depth 17 padded with plain names)
+        std::vector<int> shape_positions, shape_invocations;
+        std::vector<std::string> shape_lens;
+        // grid D: short names with ONE component of NAME_MAX bytes (first / middle / last directory / program name)
+        std::vector<int> mixed_depths, mixed_flavours, mixed_invocations;
     };
+
+    // names that look special to path-handling code but are ordinary bytes on POSIX
+    struct shape_def { const char* label; std::string name; };
+    const std::vector<shape_def>& shapes()
+    {
+        static const std::vector<shape_def> v = {
+            {"ends-in-deleted", "prog (deleted)"},          // what the kernel appends to the link target of an unlinked file
+            {"is-deleted-suffix", " (deleted)"},
+            {"deleted-twice", "x (deleted) (deleted)"},
+            {"deleted-in-middle", "a (deleted) b"},
+            {"backslash-inside", "back\\slash"},
+            {"backslash-end", "trail\\"},
+            {"windows-like", "C:\\dir\\x.exe"},
+            {"ends-in-dot", "name."},
+            {"ends-in-two-dots", "name.."},
+            {"ends-in-space", "name "},
+            {"starts-with-space", " name"},
+            {"single-letter", "a"},
+            {"single-space", " "},
+            {"single-dash", "-"},
+            {"single-backslash", "\\"},
+            {"single-tilde", "~"},
+            {"single-highbyte", "\xff"},
+            {"dash-option", "-rf"},
+            {"double-dash-option", "--help"},
+            {"percent-format", "%s%n%d"},
+            {"percent-end", "100%"},
+            {"dollar-var", "$HOME"},
+            {"dollar-brace", "${x}"},
+            {"star", "*"},
+            {"star-inside", "a*b"},
+            {"question", "what?"},
+            {"single-quote", "it's"},
+            {"double-quote", "say\"hi\""},
+            {"newline", "line1\nline2"},
+            {"newline-end", "name\n"},
+            {"tab", "tab\tname"},
+            {"only-highbytes", "\xff\xfe\xfd\x80"},
+            {"only-utf8-nonascii", "\xc3\xa9\xe6\xbc\xa2"},
+            {"only-latin1-controls", "\x80\x9f\xa0"},
+        };
+        return v;
+    }
+    const char* const POSITIONS[] = {"program-name", "its-directory", "higher-up", "all-three"};
+    const char* const MIXED_POS[] = {"first", "middle", "last-dir", "file"};
 
     tier_def make_tier(const std::string& tier)
     {
@@ -101,6 +153,12 @@ namespace
             t.depths = {1, 2, 3, 8, 40};
             t.lens = {"short", "1000", "1022", "1023", "1024", "1025", "2048", "4000", "4095", "max"};
             t.invocations = {I_DIRECT, I_RELATIVE, I_LINK_FILE, I_LINK_DIR};
+            t.shape_positions = {0, 1, 2};
+            t.shape_lens = {"natural"};
+            t.shape_invocations = {I_DIRECT, I_LINK_FILE};
+            t.mixed_depths = {3, 8};
+            t.mixed_flavours = {F_PLAIN, F_SPACES, F_HIGH};
+            t.mixed_invocations = {I_DIRECT, I_LINK_FILE};
         }
         else
         {
@@ -113,15 +171,21 @@ namespace
             t.sweep_depth = 17;
             t.sweep_flavours = {F_PLAIN, F_UTF8, F_HIGH};
             t.sweep_invocations = {I_DIRECT, I_RELATIVE, I_LINK_FILE};
+            t.shape_positions = {0, 1, 2, 3};
+            t.shape_lens = {"natural", "1023", "1024", "2048", "4095"};
+            t.shape_invocations = t.invocations;
+            t.mixed_depths = {3, 4, 8, 17, 40, 100};
+            t.mixed_flavours = {F_PLAIN, F_SPACES, F_UTF8, F_HIGH, F_DOT, F_SPECIAL};
+            t.mixed_invocations = t.invocations;
         }
         return t;
     }
 
     struct slice
     {
-        std::string grid;  // "A" | "B"
-        int depth;
-        std::string lenclass;
+        std::string grid;  // "A" | "B" | "C" | "D"
+        int depth;             // A, B, D: directories below the root;  C: slot of the special name (index into POSITIONS)
+        std::string lenclass;  // A, B: "short" | "max" | total length;  C: "natural" | total length;  D: entry of MIXED_POS
     };
 
     const int MAXLEN = PATH_MAX - 1;  // longest path string the platform accepts
@@ -411,49 +475,168 @@ namespace
 
     // ------------------------------------------------------------------ one slice ----------------------------------
 
+    struct spec
+    {
+        std::string label;               // flavour or name shape: the row of the attribution table
+        std::vector<std::string> names;  // directories + program name; empty = this case is not creatable
+        std::string what;                // description for messages
+        bool plain = false;
+    };
+
+    std::string relpath_shown(const std::vector<std::string>& names, const std::vector<size_t>& keep)
+    {
+        size_t total = 0;
+        for (auto& n : names) total += n.size() + 1;
+        std::string o = "$ROOT";
+        if (total <= 100) { for (auto& n : names) o += "/" + n; return o; }
+        size_t last = size_t(-1);
+        for (size_t k : keep)
+        {
+            if (k >= names.size() || k == last) continue;
+            o += (last == size_t(-1) ? (k == 0 ? "/" : "/.../") : (k == last + 1 ? "/" : "/.../")) + abbreviate(names[k]);
+            last = k;
+        }
+        return o;
+    }
+
+    std::vector<spec> make_specs(const tier_def& T, const slice& sl, std::vector<int>& invocations)
+    {
+        std::vector<spec> out;
+        const int R = int(g_realroot.size());
+        if (sl.grid == "A" || sl.grid == "B")
+        {
+            std::vector<int> flavours;
+            if (sl.grid == "A") { for (int f = 0; f < N_FLAVOURS; ++f) flavours.push_back(f); invocations = T.invocations; }
+            else { flavours = T.sweep_flavours; invocations = T.sweep_invocations; }
+            for (int f : flavours)
+            {
+                spec sp;
+                sp.label = FLAVOURS[f];
+                sp.plain = f == F_PLAIN;
+                int L = 0;
+                std::vector<int> lens = name_lengths(sl.depth, sl.lenclass, f, &L);
+                for (size_t i = 0; i < lens.size(); ++i) sp.names.push_back(component(f, int(i), lens[i]));
+                if (!lens.empty())
+                    sp.what = "depth " + std::to_string(sl.depth) + ", total length " + std::to_string(L) + " bytes (name lengths "
+                        + std::to_string(lens.front()) + ".." + std::to_string(lens.back()) + "), flavour " + FLAVOURS[f] + ", path "
+                        + relpath_shown(sp.names, {0, sp.names.size() - 1});
+                out.push_back(sp);
+            }
+        }
+        else if (sl.grid == "C")
+        {
+            invocations = T.shape_invocations;
+            if (sl.depth < 0 || sl.depth > 3) die("bad slot");
+            const bool natural = sl.lenclass == "natural";
+            const size_t n = natural ? 5 : 18;
+            const size_t upper = natural ? 1 : 8, dir = n - 2, file = n - 1;
+            for (const shape_def& sh : shapes())
+            {
+                spec sp;
+                sp.label = sh.label;
+                std::vector<bool> slot(n, false);
+                if (sl.depth == 0 || sl.depth == 3) slot[file] = true;
+                if (sl.depth == 1 || sl.depth == 3) slot[dir] = true;
+                if (sl.depth == 2 || sl.depth == 3) slot[upper] = true;
+                size_t k = size_t(std::count(slot.begin(), slot.end(), true));
+                std::vector<std::string> names(n);
+                bool ok = true;
+                if (natural)
+                {
+                    static const char* const ordinary[] = {"opt", "local", "app", "bin", "prog"};
+                    for (size_t i = 0; i < n; ++i) names[i] = slot[i] ? sh.name : std::string(ordinary[i]);
+                }
+                else
+                {
+                    long S = std::atol(sl.lenclass.c_str()) - R - long(n) - long(k * sh.name.size());
+                    long m = long(n - k);
+                    if (S < m || S > long(NAMEMAX) * m) ok = false;
+                    long j = 0;
+                    for (size_t i = 0; ok && i < n; ++i)
+                    {
+                        if (slot[i]) { names[i] = sh.name; continue; }
+                        names[i] = component(F_PLAIN, int(i), int(S / m + (j < S % m ? 1 : 0)));
+                        ++j;
+                    }
+                }
+                if (ok)
+                {
+                    sp.names = names;
+                    size_t L = size_t(R);
+                    for (auto& x : names) L += 1 + x.size();
+                    sp.what = "name shape " + std::string(sh.label) + " as " + POSITIONS[sl.depth] + ", depth " + std::to_string(n - 1) + ", total length "
+                        + std::to_string(L) + " bytes, path " + relpath_shown(names, {0, upper, dir, file});
+                }
+                out.push_back(sp);
+            }
+        }
+        else if (sl.grid == "D")
+        {
+            invocations = T.mixed_invocations;
+            int pos = -1;
+            for (int i = 0; i < 4; ++i) if (sl.lenclass == MIXED_POS[i]) pos = i;
+            if (pos < 0 || sl.depth < 3) die("bad mixed-length cell");
+            const size_t n = size_t(sl.depth) + 1;
+            const size_t at = pos == 0 ? 0 : pos == 1 ? size_t(sl.depth) / 2 : pos == 2 ? n - 2 : n - 1;
+            for (int f : T.mixed_flavours)
+            {
+                spec sp;
+                sp.label = FLAVOURS[f];
+                size_t L = size_t(R);
+                for (size_t i = 0; i < n; ++i)
+                {
+                    sp.names.push_back(component(f, int(i), i == at ? NAMEMAX : 3 + int(i % 4)));
+                    L += 1 + sp.names.back().size();
+                }
+                if (L > size_t(MAXLEN)) sp.names.clear();
+                else
+                    sp.what = "one " + std::to_string(NAMEMAX) + "-byte name as " + MIXED_POS[pos] + " component (index " + std::to_string(at) + " of "
+                        + std::to_string(n) + ") among 3..6-byte names, depth " + std::to_string(sl.depth) + ", total length " + std::to_string(L)
+                        + " bytes, flavour " + FLAVOURS[f] + ", path " + relpath_shown(sp.names, {0, at, n - 1});
+                out.push_back(sp);
+            }
+        }
+        else die("unknown grid " + sl.grid);
+        return out;
+    }
+
     void run_slice(const tier_def& T, const slice& sl, long slice_index)
     {
-        std::vector<int> flavours, invocations;
-        if (sl.grid == "A")
-        {
-            for (int f = 0; f < N_FLAVOURS; ++f) flavours.push_back(f);
-            invocations = T.invocations;
-        }
-        else
-        {
-            flavours = T.sweep_flavours;
-            invocations = T.sweep_invocations;
-        }
+        std::vector<int> invocations;
+        const std::vector<spec> specs = make_specs(T, sl, invocations);
         std::vector<failure> fails, global_fails;
         std::set<std::pair<int, int>> present;
         int L_any = 0;
         long case_no = 0;
-        const long sample_at = (slice_index * 7) % long(flavours.size() * invocations.size());
+        const long sample_at = (slice_index * 7) % long(specs.size() * invocations.size());
 
-        for (int f : flavours)
+        for (int f = 0; f < int(specs.size()); ++f)
         {
-            int L = 0;
-            std::vector<int> lens = name_lengths(sl.depth, sl.lenclass, f, &L);
-            if (lens.empty()) { vf::stat("cases_not_creatable", long(invocations.size())); case_no += long(invocations.size()); continue; }
-            L_any = L;
-            std::vector<std::string> names;
-            for (size_t i = 0; i < lens.size(); ++i) names.push_back(component(f, int(i), lens[i]));
+            const spec& sp = specs[size_t(f)];
+            if (sp.names.empty()) { vf::stat("cases_not_creatable", long(invocations.size())); case_no += long(invocations.size()); continue; }
+            const std::vector<std::string>& names = sp.names;
+            const int depth = int(names.size()) - 1;
             const std::string& file = names.back();
 
             // the path this driver creates; nothing below reads it back from the program under test
             std::string expect_exe = g_realroot, expect_prefix, bindir;
-            for (int i = 0; i < sl.depth; ++i)
+            for (int i = 0; i < depth; ++i)
             {
-                if (i == sl.depth - 1) expect_prefix = expect_exe + "/";
+                if (i == depth - 1) expect_prefix = expect_exe + "/";
                 expect_exe += "/" + names[size_t(i)];
             }
             bindir = expect_exe;
             expect_exe += "/" + file;
-            if (int(expect_exe.size()) != L) die("internal: length bookkeeping");
+            const int L = int(expect_exe.size());
+            if (L > MAXLEN) die("internal: length bookkeeping");
+            if ((sl.grid == "A" || sl.grid == "B" || sl.grid == "C") && sl.lenclass != "short" && sl.lenclass != "max" && sl.lenclass != "natural"
+                && L != std::atoi(sl.lenclass.c_str()))
+                die("internal: length bookkeeping");
+            L_any = L;
 
             // build it with relative steps so that any length up to PATH_MAX-1 is creatable
             if (::chdir(g_realroot.c_str()) != 0) die("chdir root");
-            for (int i = 0; i < sl.depth; ++i)
+            for (int i = 0; i < depth; ++i)
             {
                 if (::mkdir(names[size_t(i)].c_str(), 0755) != 0) die("mkdir component " + std::to_string(i));
                 if (::chdir(names[size_t(i)].c_str()) != 0) die("chdir component " + std::to_string(i));
@@ -463,10 +646,6 @@ namespace
             links = ::symlink(bindir.c_str(), ld.c_str()) == 0 && links;
             links = ::symlink(lf.c_str(), lc.c_str()) == 0 && links;
             if (!links) die("symlink creation");
-
-            std::string shape = "depth " + std::to_string(sl.depth) + ", total length " + std::to_string(L) + " bytes (name lengths "
-                + std::to_string(lens.front()) + ".." + std::to_string(lens.back()) + "), flavour " + FLAVOURS[f];
-            std::string shown = "$ROOT/" + abbreviate(names[0]) + (sl.depth > 1 ? "/.../" : "/") + abbreviate(file);
 
             std::map<int, bool> exe_ub;  // per invocation; the sanitizer build is helper 0 and runs first
             for (size_t hv = 0; hv < g_helpers.size(); ++hv)
@@ -485,24 +664,27 @@ namespace
                     case I_LINK_CHAIN: how = lc; break;
                     }
                     outcome r = run_helper(how);
-                    std::string where = std::string("[grid ") + sl.grid + ", " + shape + ", invocation " + INVOCATIONS[inv] + ", build " + g_helpers[hv].first
-                        + ", path " + shown + "]";
+                    std::string where = std::string("[grid ") + sl.grid + ", " + sp.what + ", invocation " + INVOCATIONS[inv] + ", build " + g_helpers[hv].first + "]";
+                    const size_t fails_before = fails.size();
                     judge(r, expect_exe, expect_prefix, where, f, inv, exe_ub[inv], fails, global_fails);
+                    if (fails.size() != fails_before) vf::stat("failing_runs_grid_" + sl.grid);
                     present.insert({f, inv});
                     vf::stat("evaluations");
                     vf::stat(std::string("runs_") + INVOCATIONS[inv]);
-                    vf::stat(std::string("runs_flavour_") + FLAVOURS[f]);
+                    vf::stat("runs_grid_" + sl.grid);
+                    if (sl.grid != "C") vf::stat("runs_flavour_" + sp.label);
                     if (L >= 1024) vf::stat("runs_with_path_ge_1024");
                     vf::smax("max_path_length", L);
-                    vf::smax("max_depth", sl.depth);
+                    vf::smax("max_depth", depth);
                     // distinct non-trivial: see ctx.rule in check.py
-                    bool trivial = f == F_PLAIN && L < 256 && (inv == I_DIRECT || inv == I_RELATIVE);
+                    bool trivial = sp.plain && L < 256 && (inv == I_DIRECT || inv == I_RELATIVE);
                     if (!trivial && g_distinct.insert(expect_exe.substr(g_realroot.size()) + "\x01" + INVOCATIONS[inv]).second)
                         vf::stat("distinct_nontrivial");
                     if (hv == 0 && cn == sample_at)
                         vf::sample(where + " -> executable_path() " + (r.exe == expect_exe ? "== install path" : "!= install path") + " ("
                             + std::to_string(r.exe.size()) + " bytes), prefix_path() " + (r.prefix == expect_prefix ? "== grandparent/" : "!= grandparent/")
-                            + " (" + std::to_string(r.prefix.size()) + " bytes), asan " + (r.asan_exe || r.asan_prefix ? "REPORT" : "clean"), 4);
+                            + " (" + std::to_string(r.prefix.size()) + " bytes), asan " + (r.asan_exe || r.asan_prefix ? "REPORT" : "clean"),
+                            sl.grid == "C" || sl.grid == "D" ? 6 : 3);
                     ++cn;
                 }
                 if (::unlink(file.c_str()) != 0) die("unlink installed program");
@@ -512,7 +694,7 @@ namespace
             ::unlink(lf.c_str());
             ::unlink(ld.c_str());
             ::unlink(lc.c_str());
-            for (int i = sl.depth - 1; i >= 0; --i)
+            for (int i = depth - 1; i >= 0; --i)
             {
                 if (::chdir("..") != 0) die("chdir ..");
                 if (::rmdir(names[size_t(i)].c_str()) != 0) die("rmdir component " + std::to_string(i));
@@ -535,13 +717,14 @@ namespace
             {
                 std::set<std::pair<int, int>> byf, byi;
                 for (auto& p : present) { if (ff.count(p.first)) byf.insert(p); if (fi.count(p.second)) byi.insert(p); }
-                if (F == byf) { scope = "flavour="; for (int f : ff) scope += std::string(scope.back() == '=' ? "" : "+") + FLAVOURS[f]; }
+                if (F == byf && ff.size() > 6) scope = std::to_string(ff.size()) + "-of-" + std::to_string(specs.size()) + (sl.grid == "C" ? "-names" : "-flavours");
+                else if (F == byf) { scope = sl.grid == "C" ? "name=" : "flavour="; for (int f : ff) scope += std::string(scope.back() == '=' ? "" : "+") + specs[size_t(f)].label; }
                 else if (F == byi) { scope = "invocation="; for (int i : fi) scope += std::string(scope.back() == '=' ? "" : "+") + INVOCATIONS[i]; }
                 else scope = "some";
             }
             std::string sig = "C20/" + g.first.first + "/" + len_bucket(L_any) + "," + scope + "/" + g.first.second;
             std::string msg = g.second.front()->msg + " -- " + std::to_string(F.size()) + " of the " + std::to_string(present.size())
-                + " flavour x invocation cases of this (depth, length) cell fail this way";
+                + " cases (flavour or name shape x invocation) of this cell fail this way";
             vf::violation(sig, msg, {"--slice", sl.grid, std::to_string(sl.depth), sl.lenclass});
         }
         for (const failure& x : global_fails)
@@ -593,6 +776,10 @@ int main(int argc, char** argv)
             int lo = int(g_realroot.size()) + 2 * (T.sweep_depth + 1);
             for (int l = lo; l <= MAXLEN; ++l) slices.push_back(slice{"B", T.sweep_depth, std::to_string(l)});
         }
+        for (int pos : T.shape_positions)
+            for (const std::string& l : T.shape_lens) slices.push_back(slice{"C", pos, l});
+        for (int d : T.mixed_depths)
+            for (const char* p : MIXED_POS) slices.push_back(slice{"D", d, p});
     }
     long mine = 0, done_n = 0;
     for (size_t i = 0; i < slices.size(); ++i)
